@@ -131,6 +131,9 @@ func c06SigMuts(r *verifh.Rand, in *c06Input) []c06Mut {
 	m = append(m, c06Mut{K: "target", V: c06RandTarget(r)})
 	m = append(m, c06Mut{K: "target_byte", Pos: r.Range(1, 40), X: r.Range(1, 90)})
 	m = append(m, c06Mut{K: "target_byte", Pos: -r.Range(1, 6), X: r.Range(1, 90)})
+	// query pairs added to a signed request: parsable ones, and ones url.Query() cannot parse (';', bad escape)
+	m = append(m, c06Mut{K: "target_append", V: r.Pick("admin=1;x=2", "role=root;", "z=%zz", "x=9;x=8", ";", "a=1;b=2&c=3", "q=%")})
+	m = append(m, c06Mut{K: "target_append", V: r.Pick("zz=1", "x=1", "admin=1", "x")})
 	m = append(m, c06Mut{K: "host", V: r.Pick(c06Hosts...)})
 	if len(b.Headers) > 0 {
 		h := b.Headers[r.Intn(len(b.Headers))]
@@ -203,6 +206,13 @@ func c06GenJWT(r *verifh.Rand, in *c06Input, forceCookie bool) {
 	case 2, 3:
 		c.Nbf = c06I64(-10)
 	}
+	forms := []string{"", "", "", "frac", "frac25", "e", "E", "em1", "dot0", "str"}
+	if c.Exp != nil {
+		c.ExpForm = forms[r.Intn(len(forms))]
+	}
+	if c.Nbf != nil {
+		c.NbfForm = forms[r.Intn(len(forms))]
+	}
 	switch r.Intn(8) {
 	case 0:
 		c.Iat = c06I64(0)
@@ -222,7 +232,7 @@ func c06JWTMuts(r *verifh.Rand, in *c06Input) []c06Mut {
 	}
 	m := []c06Mut{
 		{K: "hdr_byte", Name: hdr, Pos: -r.Range(1, 43), X: r.Range(1, 90)}, // signature segment
-		{K: "hdr_byte", Name: hdr, Pos: -1, X: r.Range(1, 90)},               // last char (padding bits)
+		{K: "hdr_byte", Name: hdr, Pos: -1, X: r.Range(1, 90)},              // last char (padding bits)
 		{K: "hdr_byte", Name: hdr, Pos: -r.Range(44, 100), X: r.Range(1, 90)},
 		{K: "hdr_byte", Name: hdr, Pos: r.Range(7, 40), X: r.Range(1, 90)},
 		{K: "hdr_byte", Name: hdr, Pos: r.Range(0, 6), X: r.Range(1, 90)},
@@ -233,6 +243,13 @@ func c06JWTMuts(r *verifh.Rand, in *c06Input) []c06Mut {
 		{K: "jwt_secret", V: c.SecretHex + "00"},
 		{K: "jwt_exp", Pos: r.PickInt(-1, -10, 0, 1)},
 		{K: "jwt_nbf", Pos: r.PickInt(1, 10, 0, -1)},
+		// an expired / not-yet-valid NumericDate in every numeric spelling (and as a JSON string, which is no NumericDate)
+		{K: "jwt_exp", Pos: r.PickInt(-2, -10, -3600, -86400*400), V: r.Pick("frac", "frac25", "em1")},
+		{K: "jwt_exp", Pos: r.PickInt(-1, -10, -3600, -86400*400), V: r.Pick("e", "E", "dot0")},
+		{K: "jwt_nbf", Pos: r.PickInt(1, 10, 3600, 86400*400), V: r.Pick("frac", "frac25", "em1")},
+		{K: "jwt_nbf", Pos: r.PickInt(1, 10, 3600, 86400*400), V: r.Pick("e", "E", "dot0")},
+		{K: "jwt_exp", Pos: r.PickInt(-10, 10, 0), V: r.Pick("str", "frac", "e")},
+		{K: "jwt_nbf", Pos: r.PickInt(-10, 10, 0), V: r.Pick("str", "frac", "e")},
 		{K: "jwt_where", V: r.Pick("bearer", "cookie", "both")},
 		{K: "hdr_del", Name: hdr},
 		{K: "hdr_set", Name: "Authorization", V: r.Pick("bearer x.y.z", "Bearer", "Bearer ", "Bearer  a.b.c", "Basic YTpi", "")},
@@ -325,8 +342,8 @@ func c06RuleMuts(r *verifh.Rand, in *c06Input) []c06Mut {
 	return []c06Mut{
 		{K: "hdr_set", Name: rule.Key, V: bad},
 		{K: "hdr_del", Name: rule.Key},
-		{K: "hdr_add", Name: rule.Key, V: bad},                 // second value is never looked at
-		{K: "hdr_prepend", Name: rule.Key, V: bad},             // … but the first one is
+		{K: "hdr_add", Name: rule.Key, V: bad},     // second value is never looked at
+		{K: "hdr_prepend", Name: rule.Key, V: bad}, // … but the first one is
 		{K: "hdr_byte", Name: rule.Key, Pos: r.Intn(4), X: r.Range(1, 90)},
 		{K: "hdr_set", Name: strings.ToLower(rule.Key), V: good}, // same header, other spelling
 	}
@@ -335,7 +352,7 @@ func c06RuleMuts(r *verifh.Rand, in *c06Input) []c06Mut {
 func c06Gen(r *verifh.Rand, i int) interface{} {
 	in := c06Input{}
 	in.Base = c06GenBase(r)
-	mode := r.Intn(100)
+	mode := r.Intn(107)
 	var muts []c06Mut
 	add := func(ms []c06Mut, keep int) {
 		for len(ms) > keep { // drop random ones to bound the case size
@@ -345,6 +362,22 @@ func c06Gen(r *verifh.Rand, i int) interface{} {
 		muts = append(muts, ms...)
 	}
 	switch {
+	case mode >= 100: // OAuth2 validator, self-encoded access token (JWT) mode
+		c06GenJWT(r, &in, false)
+		in.Cfg.OAuth2 = &c06JWTCfg{Alg: in.Cfg.JWT.Alg, SecretHex: in.Cfg.JWT.SecretHex}
+		in.Cred.JWT.Where, in.Cred.JWT.Cookie = "bearer", ""
+		in.Cred.JWT.Scope = r.Pick("", "read", "read write", "#number")
+		switch r.Intn(4) {
+		case 0: // JWT validator (cookie) and OAuth2 validator (bearer) on the same token
+			in.Cfg.JWT.Cookie = r.Pick("tok", "jwt")
+			in.Cred.JWT.Where, in.Cred.JWT.Cookie = "both", in.Cfg.JWT.Cookie
+		case 1: // both validators on the bearer token, different secrets: at most one of them can accept
+			in.Cfg.JWT.Cookie = ""
+			in.Cfg.OAuth2.SecretHex = c06RandSecretHex(r)
+		default:
+			in.Cfg.JWT = nil
+		}
+		add(c06JWTMuts(r, &in), 12)
 	case mode < 30: // signature, header mode
 		c06GenSig(r, &in, false)
 		add(c06SigMuts(r, &in), 14)
